@@ -801,7 +801,7 @@ Definition app_pre (sp : spec) (ents : list entry) : Prop :=
   exists e0 rest, ents = e0 :: rest /\ log_ok (e_index e0) ents /\
     sp_committed sp < e_index e0 /\ e_index e0 <= sp_last sp + 1 /\
     sp_term sp (e_index e0 - 1) <= e_term e0 /\
-    e_index e0 + nlen ents < max_index.
+    e_index e0 - 1 + nlen ents < max_index.
 
 Lemma sp_append_facts sp ents : SI sp -> app_pre sp ents ->
   let f := e_index (hd dummy_entry ents) in
@@ -1607,6 +1607,125 @@ Proof.
       { destruct (spd_save_last p) as [[i t]|]; [|exact U2]. destruct U2 as (X1 & X2 & X3 & X4 & X5).
         repeat split; auto. rewrite Hterm by lia. exact X4. }
       cbn [sp' sp_committed sp_processed sp_saved sp_snap sp_mi sp_mt]. rewrite Es in *. repeat split; auto.
+Qed.
+
+(* ------------------------------------------------------------------ *)
+(* Replicate (follower append with a conflict at any position)         *)
+
+Lemma el_conflict_eq w sp l : R w sp ->
+  el_conflict_index (w_el w) (w_lr w) (w_st w) l = Ok (sp_conflict sp l).
+Proof.
+  intros HR. induction l as [|e r IH]; [reflexivity|]. cbn [el_conflict_index sp_conflict].
+  rewrite (v_term _ _ _ HR). cbn [bind]. destruct (sp_term sp (e_index e) =? e_term e); [exact IH|reflexivity].
+Qed.
+
+Lemma conflict_props sp l : (forall e, In e l -> e_index e <> 0) ->
+  (sp_conflict sp l = 0 -> forall e, In e l -> sp_term sp (e_index e) = e_term e) /\
+  (sp_conflict sp l <> 0 -> exists k e, nth_error l k = Some e /\ e_index e = sp_conflict sp l
+       /\ sp_term sp (e_index e) <> e_term e
+       /\ forall k' e', (k' < k)%nat -> nth_error l k' = Some e' -> sp_term sp (e_index e') = e_term e').
+Proof.
+  induction l as [|x r IH]; intros Hnz.
+  - split; [intros _ e []|]. cbn. congruence.
+  - cbn [sp_conflict]. destruct (sp_term sp (e_index x) =? e_term x) eqn:E.
+    + destruct IH as (IH1 & IH2); [intros e He; apply Hnz; right; exact He|]. split.
+      * intros H0 e [->|He]; [lia|]. apply IH1; auto.
+      * intros Hc. destruct (IH2 Hc) as (k & e & K1 & K2 & K3 & K4). exists (S k), e. repeat split; auto.
+        intros k' e' Hk' Hn. destruct k'; [cbn in Hn; inversion Hn; subst; lia|]. cbn in Hn. apply (K4 k'); auto. lia.
+    + split.
+      * intros H0. exfalso. apply (Hnz x); [left; reflexivity|exact H0].
+      * intros _. exists 0%nat, x. repeat split; auto; try lia.
+Qed.
+
+Lemma skipn_nth {A} k (l : list A) e : nth_error l k = Some e -> skipn k l = e :: skipn (S k) l.
+Proof.
+  revert l. induction k; intros l H; destruct l; try discriminate.
+  - cbn in H. inversion H. reflexivity.
+  - cbn in H. cbn [skipn]. rewrite (IHk _ H). reflexivity.
+Qed.
+
+Lemma step_replicate w sp li lt commit ents : R w sp -> wf_op sp (OReplicate li lt commit ents) = true ->
+  exists w', step w (OReplicate li lt commit ents) = Ok w' /\ R w' (sp_replicate sp li lt commit ents) /\ w_limit w' = w_limit w.
+Proof.
+  intros HR Hwf. cbn [wf_op] in Hwf. cbv zeta in Hwf.
+  apply andb_true_iff in Hwf as [Hwf Hconf]. apply andb_true_iff in Hwf as [Hwf Hmax].
+  apply andb_true_iff in Hwf as [Hwf Hlt]. apply andb_true_iff in Hwf as [Hwf Hterms].
+  apply andb_true_iff in Hwf as [Hidle Hcont].
+  pose proof (r_si _ _ HR) as HS.
+  pose proof (si_mp _ HS) as S1. pose proof (si_pc _ HS) as S2. pose proof (si_cl _ HS) as S3.
+  cbn [step]. unfold w_replicate, sp_replicate. rewrite (r_c _ _ HR).
+  destruct (li <? sp_committed sp) eqn:E1.
+  { eexists; split; [reflexivity|]. split; [exact HR|reflexivity]. }
+  rewrite (v_term _ _ _ HR). cbn [bind].
+  destruct (sp_term sp li =? lt) eqn:E2.
+  2:{ rewrite (describe_ok _ _ HR). cbn [bind]. eexists; split; [reflexivity|]. split; [exact HR|reflexivity]. }
+  assert (Eidle : sp_pend sp = None) by (unfold idle in Hidle; destruct (sp_pend sp); [discriminate|reflexivity]).
+  destruct (bool_log_ok _ _ _ Hcont Hterms) as (Hlog & Hge); [lia|].
+  (* li is inside the log *)
+  assert (Hli : sp_mi sp <= li /\ li <= sp_last sp).
+  { destruct (N.eq_dec lt 0) as [Hz|Hnz].
+    - assert (li = 0) by lia. subst li. lia.
+    - apply sp_term_in; auto. lia. }
+  assert (Hnz : forall e, In e ents -> e_index e <> 0).
+  { intros e He. apply In_nth_error in He as [k K]. destruct (Hlog _ _ K) as (X & _). lia. }
+  destruct (conflict_props sp ents Hnz) as (CP0 & CP1).
+  unfold el_try_append. rewrite (el_conflict_eq _ _ _ HR), ?(r_c _ _ HR). cbn [bind].
+  set (c := sp_conflict sp ents) in *.
+  set (k := N.min (li + nlen ents) commit).
+  destruct (c =? 0) eqn:Ec.
+  - (* everything matches: only the commit index moves *)
+    cbn [bind].
+    assert (Hk : k <= sp_last sp).
+    { assert (li + nlen ents <= sp_last sp); [|unfold k; lia].
+      destruct ents as [|x r] eqn:Ee; [rewrite nlen_nil; lia|]. rewrite <- Ee in *.
+      assert (Hne : ents <> []) by congruence.
+      pose proof (log_ok_last _ _ Hlog Hne) as HL.
+      assert (In (last_entry ents) ents) by (eapply nth_error_In; apply last_entry_nth; auto).
+      pose proof (CP0 ltac:(lia) _ H) as HT. pose proof (Hge _ H).
+      destruct (sp_term_in sp (e_index (last_entry ents)) HS) as (_ & X); [lia|]. rewrite HL in X.
+      assert (1 <= nlen ents) by (rewrite Ee, nlen_cons; lia). lia. }
+    destruct (step_commit_to w sp k HR) as (w' & Hs & HR').
+    { cbn [wf_op]. rewrite Hidle. cbn [andb]. lia. }
+    cbn [step] in Hs. unfold w_commit_to in Hs.
+    destruct (el_commit_to (w_el w) (w_lr w) k) as [el2|?|?] eqn:Ecm; cbn [bind] in Hs; try discriminate.
+    inversion Hs; subst w'. eexists; split; [reflexivity|]. split; [exact HR'|reflexivity].
+  - (* a conflict above committed: truncate and append, then commit *)
+    destruct CP1 as (k0 & e0 & K1 & K2 & K3 & K4); [lia|]. fold c in K2.
+    destruct (Hlog _ _ K1) as (I1 & I2 & I3).
+    assert (Hk0 : (k0 < length ents)%nat) by (apply nth_error_Some; congruence).
+    assert (Hcc : sp_committed sp < c) by lia.
+    destruct (c <=? sp_committed sp) eqn:E3; [lia|].
+    destruct ((c <=? li) || (nlen ents <? c - li - 1)) eqn:E4; [unfold nlen in E4; lia|].
+    replace (N.to_nat (c - li - 1)) with k0 by lia.
+    rewrite (skipn_nth _ _ _ K1).
+    set (suf := e0 :: skipn (S k0) ents).
+    assert (Hsuf : suf = skipn k0 ents) by (unfold suf; symmetry; apply skipn_nth; exact K1).
+    assert (Hpre : app_pre sp suf).
+    { exists e0, (skipn (S k0) ents). split; [reflexivity|]. fold suf.
+      split. { rewrite Hsuf. replace (e_index e0) with (li + 1 + N.of_nat k0) by lia. apply log_ok_skipn. exact Hlog. }
+      split; [lia|].
+      assert (Hprev : e_index e0 - 1 <= sp_last sp /\ sp_term sp (e_index e0 - 1) <= e_term e0).
+      { destruct k0 as [|k1].
+        - replace (e_index e0 - 1) with li by lia. split; [lia|].
+          pose proof (Hge e0 ltac:(eapply nth_error_In; eauto)). lia.
+        - destruct (nth_error ents k1) as [e1|] eqn:K5.
+          2:{ apply nth_error_None in K5. lia. }
+          destruct (Hlog _ _ K5) as (J1 & J2 & J3).
+          pose proof (K4 k1 e1 ltac:(lia) K5) as HT.
+          replace (e_index e0 - 1) with (e_index e1) by lia.
+          destruct (sp_term_in sp (e_index e1) HS) as (_ & X); [lia|]. split; [exact X|].
+          rewrite HT. apply (J3 (S k1)); auto. }
+      split; [lia|]. split; [apply Hprev|].
+      rewrite Hsuf, nlen_skipn. unfold nlen in *. lia. }
+    destruct (el_append_R w sp suf HR Eidle Hpre) as (el1 & Ha & HR1).
+    rewrite Ha. cbn [bind].
+    destruct (sp_append_facts sp suf HS Hpre) as (_ & Hl1 & _ & _ & _ & _ & _ & _ & _ & _ & Hp1 & _). cbn [hd suf] in Hl1.
+    destruct (step_commit_to (with_el w el1) (sp_append sp suf) k HR1) as (w' & Hs & HR').
+    { cbn [wf_op]. unfold idle. rewrite Hp1, Eidle. cbn [andb]. fold suf in Hl1. rewrite Hl1.
+      rewrite Hsuf, nlen_skipn. unfold k, nlen in *. lia. }
+    cbn [step] in Hs. unfold w_commit_to in Hs. cbn [with_el w_el w_lr] in Hs.
+    destruct (el_commit_to el1 (w_lr w) k) as [el2|?|?] eqn:Ecm; cbn [bind] in Hs; try discriminate.
+    inversion Hs; subst w'. eexists; split; [reflexivity|]. split; [exact HR'|reflexivity].
 Qed.
 
 (* ------------------------------------------------------------------ *)
